@@ -16,6 +16,7 @@ def main():
     ap.add_argument('--replay')
     args = ap.parse_args()
     seed = int(os.environ.get('VERIF_SEED', '0') or 0)
+    os.environ['VERIF_TIER'] = args.tier  # inherited by the spawned workers (second-solver sampling)
     sys.path.insert(0, report.REPO)
     mod = importlib.import_module('checks.' + args.prop.lower())
     if args.replay:
